@@ -11,6 +11,8 @@ import KafkaVerif.Lemmas.GroupRunStruct
 import KafkaVerif.Lemmas.TransportLife
 import KafkaVerif.Gen.CloseFacts
 import KafkaVerif.Model.FetcherLife
+import KafkaVerif.Lemmas.FetcherLife
+import KafkaVerif.Lemmas.ReaderSystem
 import KafkaVerif.Lemmas.GroupConns
 
 namespace KV.C09
@@ -575,77 +577,14 @@ unsubscribe) every control step strictly decreases `rank`: the fetcher returns a
 (the hand-overs `msg`/`sendErr` of the fetch response being processed do not change the control state). -/
 theorem fetcher_terminates_after_cancel (s s' : FetcherLife.State) (e : FetcherLife.Event) (hc : s.cancelled = true)
     (he : e.control = true) (h : FetcherLife.step s e = some s') :
-    FetcherLife.rank s' < FetcherLife.rank s ∧ s'.cancelled = true := by
-  obtain ⟨pc, co, ca, sa⟩ := s
-  simp only at hc; subst hc
-  cases e <;> simp only [Event.control] at he <;> try contradiction
-  case top a =>
-    simp only [FetcherLife.step] at h
-    split at h
-    · injection h with h; subst h
-      rename_i hg
-      rcases hg with ⟨h1, h2⟩ | ⟨h1, h2⟩
-      · subst h1 h2; simp [FetcherLife.rank]
-      · have : decide (0 < a) = true := by simp [h2]
-        rcases h1 with h1 | h1 | h1 <;> (subst h1; simp [FetcherLife.rank, this])
-    · simp at h
-  case cancel =>
-    simp only [FetcherLife.step] at h
-    split at h
-    · injection h with h; subst h
-      rename_i hg
-      rcases hg with h1 | h1 <;> (subst h1; cases sa <;> simp [FetcherLife.rank])
-    · simp at h
-  case init ok =>
-    simp only [FetcherLife.step] at h
-    split at h
-    · injection h with h; subst h
-      rename_i hg
-      obtain ⟨h1, h2⟩ := hg
-      subst h1; subst h2
-      cases ok <;> simp [FetcherLife.rank]
-    · simp at h
-  case iter =>
-    simp only [FetcherLife.step] at h
-    split at h
-    · injection h with h; subst h
-      rename_i hg
-      rcases hg with h1 | h1 <;> (subst h1; simp [FetcherLife.rank])
-    · simp at h
-  case read c =>
-    simp only [FetcherLife.step] at h
-    split at h
-    · injection h with h; subst h
-      rename_i hg
-      obtain ⟨h1, h2⟩ := hg
-      subst h1; subst h2
-      cases c <;> simp [FetcherLife.rank]
-    · simp at h
-  case offsets ok =>
-    simp only [FetcherLife.step] at h
-    split at h
-    · injection h with h; subst h
-      rename_i hg
-      subst hg
-      cases ok <;> simp [FetcherLife.rank]
-    · simp at h
+    FetcherLife.rank s' < FetcherLife.rank s ∧ s'.cancelled = true :=
+  FetcherLife.terminates_after_cancel s s' e hc he h
 
 /-- … and it is never blocked: while not exited a control step is enabled (the dial fails or succeeds, the read
 returns — every network call returns — or the pending `sleep` sees the context done) -/
 theorem fetcher_progress_after_cancel (s : FetcherLife.State) (hc : s.cancelled = true) (hx : s.pc ≠ .exited) :
-    ∃ e, e.control = true ∧ (FetcherLife.step s e).isSome := by
-  obtain ⟨pc, co, ca, sa⟩ := s
-  simp only at hc hx; subst hc
-  cases pc
-  case exited => exact absurd rfl hx
-  case idle0 => exact ⟨.top 0, rfl, by simp [FetcherLife.step]⟩
-  case top => exact ⟨.cancel, rfl, by simp [FetcherLife.step]⟩
-  case retry => exact ⟨.top 1, rfl, by simp [FetcherLife.step]⟩
-  case broke => exact ⟨.top 1, rfl, by simp [FetcherLife.step]⟩
-  case inLoop => exact ⟨.iter, rfl, by simp [FetcherLife.step]⟩
-  case iterating => exact ⟨.cancel, rfl, by simp [FetcherLife.step]⟩
-  case oor => exact ⟨.offsets false, rfl, by simp [FetcherLife.step]⟩
-  case afterOffsets => exact ⟨.iter, rfl, by simp [FetcherLife.step]⟩
+    ∃ e, e.control = true ∧ (FetcherLife.step s e).isSome :=
+  FetcherLife.progress_after_cancel s hc hx
 
 /-- one step keeps "a connection is owned only inside the read loop" -/
 theorem fetcher_conn_step (s s' : FetcherLife.State) (e : FetcherLife.Event)
@@ -738,5 +677,36 @@ example : (runC ⟨0, true⟩ {} [.ev (.connectRes none), .copen, .ev (.findRes 
     .ev (.joinErr "" .kafka), .cclose, .ev (.nextGenRet "" (some .kafka)), .ev (.leave ""), .ev .closeCall,
     .ev (.errDeliver .kafka false), .ev (.leave ""), .ev .runExit]).map (fun s => (s.opened, s.closed)) = some (2, 2) := by
   decide
+
+end KV.C09
+
+/-! ## Reader.Close as a system of its components (Model/ReaderSystem.lean) -/
+namespace KV.C09
+open KV
+
+/-- **reader_system_close_terminates** — `Reader.Close` over its components (fetchers = Model/FetcherLife, the group's
+`run` goroutine = the group builder's Model/GroupRun, glued as in `(*Reader).Close`): in every state satisfying the
+system invariant (after the mark every fetcher's context is done, the group is closed and its state reachable), every
+internal step of any component, `closeMsgs` and `closeReturn` strictly lower
+`mu` = Σ fetcher ranks + runMu(group) + pending close steps. -/
+theorem reader_system_close_terminates (c : Group.Cfg) (s s' : ReaderSystem.State) (e : ReaderSystem.Event)
+    (hi : ReaderSystem.Inv c s) (hm : s.close = 2) (he : ReaderSystem.internal e = true)
+    (h : ReaderSystem.step c s e = some s') : ReaderSystem.mu c s' < ReaderSystem.mu c s :=
+  ReaderSystem.mu_decreases c s s' e hi hm he h
+
+/-- the invariant holds initially and is preserved by every step of the system -/
+theorem reader_system_invariant (c : Group.Cfg) (grp : Bool) :
+    ReaderSystem.Inv c { group := if grp then some {} else none } ∧
+    ∀ s s' e, ReaderSystem.Inv c s → ReaderSystem.step c s e = some s' → ReaderSystem.Inv c s' :=
+  ⟨ReaderSystem.inv_init c grp, fun s s' e hi h => ReaderSystem.inv_step c s s' e hi h⟩
+
+/-- **reader_system_close_progress** — while Close waits after the mark, a control step of a fetcher, a step of the
+group's `run` goroutine (or the start of a generation's internal function), `closeMsgs` or `closeReturn` is enabled —
+except while `run` is inside `gen.close()` (C15 `close_returns_after_all_exits`). -/
+theorem reader_system_close_progress (c : Group.Cfg) (s : ReaderSystem.State) (hi : ReaderSystem.Inv c s)
+    (hm : s.close = 2) (hw : ∀ g, s.group = some g → ∀ ret r, g.pc ≠ .waiting ret r) :
+    ∃ e, (ReaderSystem.internal e = true ∨ ∃ gi acc, e = .group (.gStart gi acc)) ∧
+      (ReaderSystem.step c s e).isSome :=
+  ReaderSystem.system_progress c s hi hm hw
 
 end KV.C09
